@@ -10,14 +10,16 @@
 (***************************************************************************)
 EXTENDS Integers, Sequences, FiniteSets, TLC, Json
 
-CONSTANTS FileClasses, ColumnOpts, CategoryOpts, IndexOpts, NullOpts, DtypeOpts
+CONSTANTS FileClasses, ColumnOpts, CategoryOpts, IndexOpts, NullOpts, DtypeOpts,
+          HandleOpts    \* which handle answers: the opened one, a row-group slice of it (first / all but first / none), a pickled copy
 
 VARIABLES opt, pc
 Opts == [file : FileClasses, columns : ColumnOpts, categories : CategoryOpts, index : IndexOpts,
-         pandas_nulls : NullOpts, dtypes : DtypeOpts]
+         pandas_nulls : NullOpts, dtypes : DtypeOpts, handle : HandleOpts]
 (* option combinations the API defines: a dtypes override and an explicit index are only explored with all columns *)
 Sensible(o) == /\ (o.dtypes # "none" => o.columns = "all")
                /\ (o.index = "name" => o.columns = "all")
+               /\ (o.handle # "whole" => o.dtypes = "none" /\ o.index # "name" /\ o.categories \in {"none", "list"})
 Init == opt \in {o \in Opts : Sensible(o)} /\ pc = "predict"
 PredictStep == pc = "predict" /\ pc' = "read" /\ UNCHANGED opt
 ReadStep == pc = "read" /\ pc' = "done" /\ UNCHANGED opt
@@ -31,4 +33,5 @@ CatsAll == {"none", "list", "dict", "empty"}
 IdxAll == {"none", "false", "name"}
 NullsBoth == {TRUE, FALSE}
 DtypesBoth == {"none", "override"}
+HandlesAll == {"whole", "first", "rest", "empty", "pickled"}
 =============================================================================
